@@ -386,17 +386,28 @@ def _poly_unary(self, name, extra=None):
   raise Unsupported(f'{name} on polynomial operand')
 
 
+def _relu(d):
+  """relu with sign-definite rows simplified exactly (sound: decided by interval bounds)."""
+  lo, hi = d.bounds()
+  pos = lo >= 0
+  neg = hi <= 0
+  und = ~(pos | neg)
+  out = d.select_rows(pos)
+  if und.any():
+    out = out.add(atom_apply('relu', d.select_rows(und)).select_rows(und))
+  return out
+
+
 def _poly_maximum(self, other):
   # max(a, b) = b + relu(a - b)
   d = self.add(other, -1.0)
-  r = atom_apply('relu', d)
-  return r.add(other)
+  return _relu(d).add(other)
 
 
 def _poly_minimum(self, other):
   # min(a, b) = a - relu(a - b)
   d = self.add(other, -1.0)
-  return self.add(atom_apply('relu', d), -1.0)
+  return self.add(_relu(d), -1.0)
 
 
 def _poly_compare(self, name, other):
